@@ -3,7 +3,8 @@ C18 — the absolute time of every sample survives date-time bookkeeping.
 
 Tie: strict Rat correspondence of the Lean state machine (`Model/Dtg.lean`: ref, t, cache) with `TimeSeries` on HISTORIES:
 construction (floats +/- reference, datetime stamps, numpy.datetime64 stamps of resolution us/ms/s, reference given as datetime
-or datetime64) followed by sequences of `set_dtg_ref(x | None | non-datetime)`, `copy()`, `dtg_time` reads.  After every step
+or datetime64) followed by sequences of `set_dtg_ref(x | None | non-datetime)`, copying (EVERY way the library offers: `copy()`, `copy.copy`,
+`copy(newname=..)` keyword / positional, `copy.deepcopy`, through `TsDB.add` + `TsDB.copy` + `get`), `dtg_time` reads.  After every step
 `dtg_ref`, `t`, `dtg_start`, `dtg_end`, the value returned by a `dtg_time` read and the rejection are compared (the cache is not
 compared as state: an implementation may cache more or less, what it caches must equal reference + time -- an oracle).  Times / instants are multiples of
 1/64 s (= 15625 us, dyadic): `timedelta(seconds=.)`, `total_seconds()` and the float additions are exact there.  All histories up
@@ -25,13 +26,38 @@ from ..core import rat
 
 RULE = ("constructor kind (floats without/with reference, reference as datetime or datetime64; datetime stamps; datetime64[us|ms|s] "
         "stamps; each with/without explicit reference) x ALL histories of length <= 3 (quick) / 4 (thorough) over {set(x1), set(x2), "
-        "set(None), set(non-datetime), copy, read dtg_time} + seeded random histories (length <= 10, 1-20 samples, instants multiple of "
-        "1/64 s) + realistic float histories (decimal steps, arbitrary us instants); non-trivial = the history contains a successful "
+        "set(None), set(non-datetime), copy, copy(newname=..), read dtg_time} + seeded random histories (length <= 10, 1-20 samples, instants multiple of "
+        "1/64 s; copy steps drawn from copy() / copy.copy / copy(newname=) / copy(name) / deepcopy / TsDB.copy) + realistic float histories (decimal steps, arbitrary us instants); non-trivial = the history contains a successful "
         "re-referencing of a series that has a reference; distinct by (constructor, data, history)")
 
 EPOCH = datetime(2000, 1, 1)
 NS_FINDING = "F23"          # id under which the nanosecond-resolution defect is to be registered in known_findings.json
 BAD_KINDS = ("np64", "str", "float", "date", "int")
+COPY_HOWS = ("name", "pos", "deep", "db")      # besides plain "copy" (= copy() / copy.copy alternating with the step index)
+
+
+def do_copy(ts, op, k):
+    """every way the library offers to copy a series; returns (copy, expected name)"""
+    how = op.split(":")[1] if ":" in op else ""
+    if how == "":
+        return (ts.copy() if k % 2 == 0 else _copy.copy(ts)), ts.name
+    if how == "name":
+        nm = "c%d" % k
+        return ts.copy(newname=nm), nm
+    if how == "pos":
+        nm = "p%d" % k
+        return ts.copy(nm), nm
+    if how == "deep":
+        return _copy.deepcopy(ts), ts.name
+    if how == "db":
+        from qats.tsdb import TsDB
+        db = TsDB()
+        db.add(ts)
+        new = db.copy().get(name=ts.name)
+        if new is ts:
+            raise AssertionError("TsDB.copy() returned the original object")
+        return new, ts.name
+    raise ValueError("unknown copy op " + op)
 
 
 # ------------------------------------------------------------------------------------------------------------------------------
@@ -99,7 +125,7 @@ def show(v):
 # cases
 # ------------------------------------------------------------------------------------------------------------------------------
 # a case: dict(ctor="F"|"S", vals=[str rational…] (times or stamp instants), ref=str|None, refkind="dt"|"dt64",
-#              stampkind="dt"|"us"|"ms"|"s"|"ts", ops=[…], exact=bool)     ops: "set:<rat>", "set:-", "set:bad:<kind>", "copy", "read"
+#              stampkind="dt"|"us"|"ms"|"s"|"ts", ops=[…], exact=bool)     ops: "set:<rat>", "set:-", "set:bad:<kind>", "copy", "copy:<how>" (how in COPY_HOWS), "read"
 def build(case):
     from qats import TimeSeries
     vals = [Fraction(v) for v in case["vals"]]
@@ -126,7 +152,7 @@ def build(case):
 def model_line(case):
     ops = []
     for o in case["ops"]:
-        ops.append("set:bad" if o.startswith("set:bad") else o)
+        ops.append("set:bad" if o.startswith("set:bad") else "copy" if o.startswith("copy") else o)
     return "dtg.run %s %s %s | %s" % (case["ctor"], "-" if case.get("ref") is None else rat(Fraction(case["ref"])),
                                       " ".join(rat(Fraction(v)) for v in case["vals"]), " ".join(ops))
 
@@ -210,10 +236,11 @@ def play(case, fail, tol):
         a_pre = fresh_abs(pre[0], pre[1])
         st_pre = None if a_pre is None else a_pre[0]
         where = "step %d (%s)" % (k + 1, op)
-        err, ret, new = None, None, ts
+        err, ret, new, want_name = None, None, ts, None
+        is_copy = op.startswith("copy")
         try:
-            if op == "copy":
-                new = ts.copy() if k % 2 == 0 else _copy.copy(ts)
+            if is_copy:
+                new, want_name = do_copy(ts, op, k)
             elif op == "read":
                 ret = ts.dtg_time
             elif op == "set:-":
@@ -228,6 +255,9 @@ def play(case, fail, tol):
             err = e
         invalid = op.startswith("set:bad:") or (op == "set:-" and pre[0] is None)
         if err is not None:
+            if is_copy:
+                fail("copying a series succeeds (the copy then has the same absolute instants)", "a copy",
+                     "%s: %s" % (type(err).__name__, str(err)[:200]), "copy_raises@" + where)
             if not same_raw(pre, raw(ts)):
                 fail("a rejected call (%s) leaves reference, relative times and cached stamps untouched" % type(err).__name__,
                      show(pre), show(raw(ts)), "rejected_unchanged@" + where)
@@ -236,9 +266,12 @@ def play(case, fail, tol):
         if invalid:
             fail("an invalid reference (not a datetime / None without a reference) is rejected", "ValueError", "accepted",
                  "invalid_accepted@" + where)
-        if op == "copy":
+        if is_copy:
             if not same_raw((pre[0], pre[1], None), (new.dtg_ref, np.array(new.t), None)):
                 fail("a copy has the same reference and relative times", show(pre[:2]), show(raw(new)[:2]), "copy_equal@" + where)
+            if new.name != want_name or not np.array_equal(np.asarray(new.x), np.asarray(ts.x)):
+                fail("a copy carries the requested (else the original) name and the same values", [want_name, show(ts.x)],
+                     [new.name, show(new.x)], "copy_name_values@" + where)
             originals.append((ts, raw(ts)))
             ts = new
         post = raw(ts)
@@ -247,7 +280,7 @@ def play(case, fail, tol):
             d = dist_us(a_pre, a_post)
             if d > tol:
                 fail("reference + relative time of every sample is the same before and after %s" % (
-                    "copying" if op == "copy" else "reading dtg_time" if op == "read" else "re-referencing to the series start"
+                    "copying" if is_copy else "reading dtg_time" if op == "read" else "re-referencing to the series start"
                     if op == "set:-" else "re-referencing to an instant"), show(a_pre), show(a_post), "abs_invariant@" + where)
             elif op.startswith("set:") and not np.array_equal(pre[1], post[1]):
                 nontrivial = True
@@ -330,7 +363,7 @@ def enum_cases(chk):
             vals = [BASE + 10 + Fraction(k * (64 // g), 64) for k in (2, 3, 11)]
         x1 = BASE - 3 + Fraction(64 // g, 64) * 5
         x2 = BASE + 86400 * 3 + Fraction(64 // g, 64) * 3
-        alpha = ["set:%s" % x1, "set:%s" % x2, "set:-", "set:bad:" + BAD_KINDS[ci % len(BAD_KINDS)], "copy", "read"]
+        alpha = ["set:%s" % x1, "set:%s" % x2, "set:-", "set:bad:" + BAD_KINDS[ci % len(BAD_KINDS)], "copy", "copy:name", "read"]
         for n in range(0, L + 1):
             for w in itertools.product(alpha, repeat=n):
                 yield mk_case(ctor, vals, ref, w)
@@ -348,7 +381,7 @@ def rand_ops(rng, q):
         elif k < 0.65:
             ops.append("set:bad:" + rng.choice(BAD_KINDS))
         elif k < 0.8:
-            ops.append("copy")
+            ops.append("copy" if rng.random() < 0.4 else "copy:" + rng.choice(COPY_HOWS))
         else:
             ops.append("read")
     return ops
@@ -564,8 +597,8 @@ def measure_drift(case):
         a0 = fresh_abs(ts.dtg_ref, ts.t)
         for op in case["ops"]:
             try:
-                if op == "copy":
-                    ts = ts.copy()
+                if op.startswith("copy"):
+                    ts = do_copy(ts, op, 0)[0]
                 elif op == "set:-":
                     ts.set_dtg_ref()
                 elif op.startswith("set:") and not op.startswith(("set:bad", "set:aware")):
